@@ -14,7 +14,21 @@ def _rewrite_atom(nm, decide, memo):
     return memo[nm]
   res = None
   ent = avn.ATOM_ARGS.get(nm)
-  if ent is not None and not avn._is_bool_name(nm):
+  if ent is not None and avn._is_bool_name(nm):
+    op, a, b = ent[1]
+    a2, b2 = subst(Rat.lift(a), decide, memo), subst(Rat.lift(b), decide, memo)
+    if a2.key() != Rat.lift(a).key() or b2.key() != Rat.lift(b).key():
+      if op == '==':
+        r = a2._cmp('==', b2) if (a2.is_const() and b2.is_const()) else None
+        if r is None:
+          x, y = sorted([a2, b2], key=lambda r_: repr(r_.key()))
+          r = Rat(Poly.sym(avn.atom_key('bool', ('==', x, y), ('==', x.key(), y.key()))))
+      else:
+        r = a2._cmp(op, b2)
+      r = Rat.lift(r)
+      # the rebuilt atom may itself be decided by the scenario
+      res = subst_poly(r.n, decide, memo)
+  elif ent is not None:
     name, args = ent
     new_args = tuple(subst(a, decide, memo) if isinstance(a, (Rat, np.ndarray, Struct, tuple, list)) else a for a in args)
     changed = any(avn.keyof(a) != avn.keyof(b) for a, b in zip(args, new_args)
@@ -23,12 +37,15 @@ def _rewrite_atom(nm, decide, memo):
       if name == 'wide':
         r = Rat.lift(new_args[0])
         res = r.n if r.d.is_const() and r.d.constval() == 1 else None
-        if res is not None and len(res.t) > 4:
-          res = avn.uf('wide', Rat(res)).n
+        if res is not None:
+          res = avn.widen_poly(res, WIDEN[0])
       if res is None:
         res = avn.uf(name, *new_args).n
   memo[nm] = res
   return res
+
+
+WIDEN = [12]
 
 
 def subst_poly(p, decide, memo=None):
